@@ -35,6 +35,20 @@ type opCase struct {
 	// Big: a large input described by formulas (the case stays small): rows "r<i>", residues a
 	// function of (i,j); counts of Rarefy a function of i
 	Big *bigSpec `json:"big,omitempty"`
+	// Ranges: the partition set of the partitioned bootstrap
+	Ranges []prange `json:"ranges,omitempty"`
+	// Plan: the input object is produced by this chain of public operations (nil: freshly built)
+	Plan *gen.Plan `json:"plan,omitempty"`
+	// Touch: rows read as strings (even: by name, odd: by index) before the operation, in the
+	// first execution only
+	Touch []int `json:"touch,omitempty"`
+	// Interlude: queries on OTHER alignments executed between the executions of the operation
+	Interlude []interStep `json:"interlude,omitempty"`
+}
+
+type interStep struct {
+	Kind  string `json:"kind"`  // nt | rna | aa | nt-lower
+	Query string `json:"query"` // see interQueries
 }
 
 type bigSpec struct {
@@ -333,8 +347,9 @@ func genOpCase(t *rapid.T) opCase {
 		if c.A <= 0 && c.Op == "partboot" {
 			c.A = 1
 		}
-		c.N = rapid.IntRange(0, 40).Draw(t, "partition")
-		c.Flag = rapid.Bool().Draw(t, "modulo")
+		if c.Op == "partboot" {
+			c.Ranges = genRanges(t, l)
+		}
 	case "sample", "sample-bag":
 		c.N = genCount(t, n, "nb")
 	case "subalign":
@@ -360,7 +375,36 @@ func genOpCase(t *rapid.T) opCase {
 		}
 		c.N = rapid.IntRange(0, total+1).Draw(t, "nb")
 	}
+	genHistory(t, &c)
 	return c
+}
+
+// genHistory draws what surrounds the operation: the provenance of the input (a third of the
+// alignments), the rows read before the operation, the queries on other alignments in between
+func genHistory(t *rapid.T, c *opCase) {
+	if c.Big == nil && !strings.HasSuffix(c.Op, "-bag") && len(c.Ali.Rows) > 0 && rapid.IntRange(0, 2).Draw(t, "provenance") == 0 {
+		junk := "ACGT-"
+		if c.Ali.Alphabet == "aa" {
+			junk = "ARNDE-"
+		}
+		p := gen.DrawPlan(t, c.Ali, junk, 3)
+		c.Plan = &p
+	}
+	if rapid.Bool().Draw(t, "touched") {
+		k := rapid.IntRange(1, 3).Draw(t, "ntouch")
+		for i := 0; i < k; i++ {
+			c.Touch = append(c.Touch, rapid.IntRange(0, 63).Draw(t, "touch"))
+		}
+	}
+	if rapid.IntRange(0, 9).Draw(t, "with_interlude")%5 == 3 {
+		k := rapid.IntRange(1, 3).Draw(t, "ninter")
+		for i := 0; i < k; i++ {
+			c.Interlude = append(c.Interlude, interStep{
+				Kind:  interKinds[rapid.IntRange(0, 1<<16).Draw(t, "ikind")%len(interKinds)],
+				Query: interQueries[rapid.IntRange(0, 1<<16).Draw(t, "iquery")%len(interQueries)],
+			})
+		}
+	}
 }
 
 // ---- execution -----------------------------------------------------------------------------------
@@ -376,33 +420,141 @@ type result struct {
 	// of one row); ExtErr: an error of these two calls
 	Ext    []gen.Row `json:"ext,omitempty"`
 	ExtErr string    `json:"ext_err,omitempty"`
+	// Disagree: the accessors of the resulting object do not show the same rows
+	Disagree string `json:"disagree,omitempty"`
 }
 
 // pure operations return a new object and must leave their receiver as it is: they are also
 // replayed on the SAME object
 var pureOps = map[string]bool{"bootstrap": true, "sample": true, "sample-bag": true, "subalign": true, "rarefy": true, "rarefy-bag": true, "partboot": true}
 
-// partitionOf gives the partition index of every column for the "partboot" operation: Flag:
-// columns taken modulo k (k = 2 or 3); otherwise two ranges cut at 1+N mod (L-1)
-func partitionOf(flag bool, n, l int) (part []int, k int) {
-	part = make([]int, l)
-	if flag {
-		k = 2 + mod(n, 2)
+// prange is one range of a partition: columns S, S+M, ... <= E (0-based, inclusive) belong to
+// partition P. A partition may be made of several ranges and strides (RAxML style
+// "gene1 = 1-4,9-10", "1-12/3,2-12/3")
+type prange struct {
+	P int `json:"p"`
+	S int `json:"s"`
+	E int `json:"e"`
+	M int `json:"m"`
+}
+
+// genRanges draws a partition set of l >= 2 columns: every column in exactly one of 2-3 partitions;
+// families: blocks dealt to the partitions in turn (several ranges per partition), strides, and a
+// strided segment followed by blocks. Partitions are numbered in order of first appearance
+func genRanges(t *rapid.T, l int) []prange {
+	var rs []prange
+	switch rapid.IntRange(0, 2).Draw(t, "partfamily") {
+	case 0: // strides
+		k := rapid.IntRange(2, 3).Draw(t, "k")
 		if k > l {
 			k = l
 		}
-		for j := range part {
-			part[j] = j % k
+		for i := 0; i < k; i++ {
+			rs = append(rs, prange{i, i, l - 1, k})
 		}
-		return part, k
+	case 1: // blocks dealt in turn
+		m := rapid.IntRange(2, 6).Draw(t, "blocks")
+		if m > l {
+			m = l
+		}
+		k := rapid.IntRange(2, 3).Draw(t, "k")
+		if k > m {
+			k = m
+		}
+		cuts := gen.Perm(t, l-1, "cuts")[:m-1] // cut after column cuts[i]
+		sortInts(cuts)
+		start := 0
+		for i := 0; i < m; i++ {
+			end := l - 1
+			if i < m-1 {
+				end = cuts[i]
+			}
+			rs = append(rs, prange{i % k, start, end, 1})
+			start = end + 1
+		}
+	default: // a segment shared by two strided partitions, then blocks
+		if l < 4 {
+			return []prange{{0, 0, 0, 1}, {1, 1, l - 1, 1}}
+		}
+		c := rapid.IntRange(2, l-1).Draw(t, "stridedupto") // columns 0..c-1 strided
+		rs = append(rs, prange{0, 0, c - 1, 2}, prange{1, 1, c - 1, 2})
+		last := rapid.IntRange(0, 2).Draw(t, "lastpart")
+		mid := rapid.IntRange(c, l-1).Draw(t, "mid")
+		rs = append(rs, prange{last, c, mid, 1})
+		if mid < l-1 {
+			rs = append(rs, prange{(last + 1) % 3 % 3, mid + 1, l - 1, 1})
+		}
+		// renumber in order of first appearance
+		seen := map[int]int{}
+		for i := range rs {
+			if _, ok := seen[rs[i].P]; !ok {
+				seen[rs[i].P] = len(seen)
+			}
+			rs[i].P = seen[rs[i].P]
+		}
 	}
-	cut := 1 + mod(n, l-1)
+	return rs
+}
+
+func sortInts(v []int) {
+	for i := 1; i < len(v); i++ {
+		for j := i; j > 0 && v[j] < v[j-1]; j-- {
+			v[j], v[j-1] = v[j-1], v[j]
+		}
+	}
+}
+
+// partitionOf gives the partition index of every column (-1: none) and the number of partitions
+func partitionOf(rs []prange, l int) (part []int, k int) {
+	part = make([]int, l)
 	for j := range part {
-		if j >= cut {
-			part[j] = 1
+		part[j] = -1
+	}
+	for _, r := range rs {
+		for j := r.S; j <= r.E && j < l; j += r.M {
+			part[j] = r.P
+		}
+		if r.P+1 > k {
+			k = r.P + 1
 		}
 	}
-	return part, 2
+	return part, k
+}
+
+func partitionSet(rs []prange, l int) *align.PartitionSet {
+	ps := align.NewPartitionSet(l)
+	for _, r := range rs {
+		if err := ps.AddRange(fmt.Sprintf("p%d", r.P), "m", r.S, r.E, r.M); err != nil {
+			panic("harness: partition set refused: " + err.Error())
+		}
+	}
+	return ps
+}
+
+// partitionFile writes the partition set in the syntax of the documentation (1-based,
+// "model, name = start-end/modulo, start-end"), one line per partition
+func partitionFile(rs []prange) string {
+	_, k := partitionOf(rs, 1<<20)
+	var sb strings.Builder
+	for p := 0; p < k; p++ {
+		fmt.Fprintf(&sb, "M, p%d = ", p)
+		first := true
+		for _, r := range rs {
+			if r.P != p {
+				continue
+			}
+			if !first {
+				sb.WriteString(", ")
+			}
+			first = false
+			fmt.Fprintf(&sb, "%d-%d", r.S+1, r.E+1)
+			if r.M > 1 {
+				fmt.Fprintf(&sb, "/%d", r.M)
+			}
+		}
+		sb.WriteString("\n")
+	}
+	return sb.String()
 }
 
 func mod(x, n int) int {
@@ -416,27 +568,207 @@ func mod(x, n int) int {
 	return x
 }
 
-func partitionSet(flag bool, n, l int) *align.PartitionSet {
-	ps := align.NewPartitionSet(l)
-	if flag {
-		_, k := partitionOf(flag, n, l)
-		for i := 0; i < k; i++ {
-			ps.AddRange(fmt.Sprintf("p%d", i), "m", i, l-1, k)
-		}
-		return ps
-	}
-	cut := 1 + mod(n, l-1)
-	ps.AddRange("p0", "m", 0, cut-1, 1)
-	ps.AddRange("p1", "m", cut, l-1, 1)
-	return ps
+func buildFor(c opCase) align.SeqBag {
+	sb, _ := buildVia(c, false)
+	return sb
 }
 
-func buildFor(c opCase) align.SeqBag {
+// buildVia builds the input; with provenance the alignment is produced by the drawn chain of
+// public operations that ends on the same content (unusable: the chain itself misbehaved, which is
+// not this property's business: fresh build, counted)
+func buildVia(c opCase, provenance bool) (sb align.SeqBag, unusable bool) {
 	c = c.expand()
 	if strings.HasSuffix(c.Op, "-bag") {
-		return gen.BuildBag(c.Ali)
+		return gen.BuildBag(c.Ali), false
 	}
-	return gen.MustBuild(c.Ali)
+	if provenance && c.Plan != nil && c.Big == nil {
+		if al, ok := gen.BuildVia(c.Ali, *c.Plan); ok {
+			return al, false
+		}
+		return gen.MustBuild(c.Ali), true
+	}
+	return gen.MustBuild(c.Ali), false
+}
+
+// touch reads some rows as strings before the operation (a partial read: the rows not listed are
+// not read)
+func touch(sb align.SeqBag, rows []int) {
+	n := sb.NbSequences()
+	if n == 0 {
+		return
+	}
+	for _, t := range rows {
+		i := mod(t/2, n)
+		if t%2 == 0 {
+			name, _ := sb.GetSequenceNameById(i)
+			sb.GetSequence(name)
+		} else {
+			sb.GetSequenceById(i)
+		}
+	}
+}
+
+// accessors reads the container through every accessor and reports the first disagreement
+func accessors(sb align.SeqBag) string {
+	n := sb.NbSequences()
+	type view struct{ name, seq string }
+	byIndex := make([]view, n)
+	for i := 0; i < n; i++ {
+		byIndex[i].name, _ = sb.GetSequenceNameById(i)
+		byIndex[i].seq, _ = sb.GetSequenceById(i)
+	}
+	cmp := func(what string, i int, name, seq string) string {
+		if i >= n {
+			return fmt.Sprintf("%s yields more than %d rows", what, n)
+		}
+		if byIndex[i].name != name || byIndex[i].seq != seq {
+			return fmt.Sprintf("row %d: GetSequenceById gives %s=%q, %s gives %s=%q", i, byIndex[i].name, byIndex[i].seq, what, name, seq)
+		}
+		return ""
+	}
+	bad := ""
+	i := 0
+	sb.IterateChar(func(name string, b []uint8) bool {
+		if d := cmp("IterateChar", i, name, string(b)); d != "" && bad == "" {
+			bad = d
+		}
+		i++
+		return false
+	})
+	if bad == "" && i != n {
+		bad = fmt.Sprintf("IterateChar yields %d rows of %d", i, n)
+	}
+	i = 0
+	sb.Iterate(func(name string, s string) bool {
+		if d := cmp("Iterate", i, name, s); d != "" && bad == "" {
+			bad = d
+		}
+		i++
+		return false
+	})
+	for k, s := range sb.Sequences() {
+		if d := cmp("Sequences()[i].Sequence()", k, s.Name(), s.Sequence()); d != "" && bad == "" {
+			bad = d
+		}
+		if d := cmp("Sequences()[i].SequenceChar()", k, s.Name(), string(s.SequenceChar())); d != "" && bad == "" {
+			bad = d
+		}
+	}
+	seen := map[string]bool{}
+	for k, v := range byIndex {
+		if seen[v.name] {
+			continue // duplicated names: the name leads to the first one
+		}
+		seen[v.name] = true
+		if s, ok := sb.GetSequence(v.name); (!ok || s != v.seq) && bad == "" {
+			bad = fmt.Sprintf("row %d: GetSequenceById gives %s=%q, GetSequence(name) gives %q,%v", k, v.name, v.seq, s, ok)
+		}
+		if b, ok := sb.GetSequenceChar(v.name); (!ok || string(b) != v.seq) && bad == "" {
+			bad = fmt.Sprintf("row %d: GetSequenceById gives %s=%q, GetSequenceChar(name) gives %q,%v", k, v.name, v.seq, string(b), ok)
+		}
+	}
+	return bad
+}
+
+// batteryProbe runs every in-place randomised operation and the samplers on two fixed alignments
+// (nucleotide, protein) after a fixed rand.Seed and returns what they produce
+var lastBattery string // nothing but the interludes runs foreign code between two probes
+
+func batteryProbe() string {
+	var sb strings.Builder
+	for _, a := range []gen.Ali{
+		{Alphabet: "nt", Rows: []gen.Row{{Name: "a", Seq: "ACGTRYNACGTTGCAA"}, {Name: "b", Seq: "TTGCA-NACGGTGCAC"}, {Name: "c", Seq: "GGGCATNACGATGCAG"}, {Name: "d", Seq: "CAGCATNTCGATGAAT"}}},
+		{Alphabet: "aa", Rows: []gen.Row{{Name: "a", Seq: "MKVLAWXQEDFGHIPS"}, {Name: "b", Seq: "MRVLSW-QDEYTNCPS"}, {Name: "c", Seq: "MKILSWXQDDYTNCPT"}, {Name: "d", Seq: "LKILAWXHDDFTNCAT"}}},
+	} {
+		ops := []func(al align.Alignment) align.SeqBag{
+			func(al align.Alignment) align.SeqBag { al.Mutate(1); return al },
+			func(al align.Alignment) align.SeqBag { al.Mutate(0.5); return al },
+			func(al align.Alignment) align.SeqBag { al.ShuffleSites(0.5, 0.5, false); return al },
+			func(al align.Alignment) align.SeqBag {
+				al.AddGaps(0.5, 0.5)
+				al.Recombine(0.5, 0.5, true)
+				al.SimulateRogue(0.5, 0.5)
+				al.ShuffleSequences()
+				return al
+			},
+			func(al align.Alignment) align.SeqBag { return al.BuildBootstrap(1) },
+			func(al align.Alignment) align.SeqBag { s, _ := al.Sample(2); return s },
+			func(al align.Alignment) align.SeqBag { s, _ := al.RandSubAlign(5, false); return s },
+		}
+		for i, op := range ops {
+			al := gen.MustBuild(a)
+			rand.Seed(int64(1000 + i))
+			res := op(al)
+			res.IterateChar(func(n string, b []uint8) bool {
+				sb.WriteString(n)
+				sb.WriteByte('=')
+				sb.Write(b)
+				sb.WriteByte(' ')
+				return false
+			})
+			sb.WriteByte('|')
+		}
+	}
+	return sb.String()
+}
+
+// ---- interlude: queries on other alignments -------------------------------------------------------
+
+var interKinds = []string{"nt", "rna", "aa", "nt-lower", "rna-lower"}
+var interQueries = []string{"alphabetchars", "pssm", "charstats", "maxcharstats", "autoalphabet", "consensus", "entropy", "chartoindex", "translate", "revcomp", "write"}
+
+// interlude executes read-only work on alignments that have nothing to do with the case: the
+// result of a randomised operation must not depend on it (no state shared through the package)
+func interlude(steps []interStep) {
+	for _, st := range steps {
+		var a gen.Ali
+		switch st.Kind {
+		case "rna":
+			a = gen.Ali{Alphabet: "nt", Rows: []gen.Row{{Name: "a", Seq: "ACGUACGUAA"}, {Name: "b", Seq: "ACGUUCGAAU"}, {Name: "c", Seq: "UCGAACGUAG"}}}
+		case "rna-lower":
+			a = gen.Ali{Alphabet: "nt", Rows: []gen.Row{{Name: "a", Seq: "acguacguaa"}, {Name: "b", Seq: "acguucgaau"}}}
+		case "aa":
+			a = gen.Ali{Alphabet: "aa", Rows: []gen.Row{{Name: "a", Seq: "MKVLAW-QE*"}, {Name: "b", Seq: "MRVLSWXQD*"}}}
+		case "nt-lower":
+			a = gen.Ali{Alphabet: "nt", Rows: []gen.Row{{Name: "a", Seq: "acgtacgtnn"}, {Name: "b", Seq: "acgtrcga-t"}}}
+		default:
+			a = gen.Ali{Alphabet: "nt", Rows: []gen.Row{{Name: "a", Seq: "ACGTACGTAA"}, {Name: "b", Seq: "ACGTTCGA-T"}, {Name: "c", Seq: "TCGAACGTNG"}}}
+		}
+		al := gen.MustBuild(a)
+		func() {
+			defer func() { recover() }()
+			switch st.Query {
+			case "alphabetchars":
+				_ = al.AlphabetCharacters()
+				_ = al.AlphabetStr()
+			case "pssm":
+				al.Pssm(false, 0.1, align.PSSM_NORM_NONE)
+				al.Pssm(true, 0.1, align.PSSM_NORM_DATA)
+			case "charstats":
+				_ = al.CharStats()
+				_ = al.UniqueCharacters()
+			case "maxcharstats":
+				al.MaxCharStats(false, false)
+			case "autoalphabet":
+				al.AutoAlphabet()
+				_ = al.DetectAlphabet()
+			case "consensus":
+				_ = al.Consensus(false, false)
+			case "entropy":
+				al.Entropy(0, false)
+			case "chartoindex":
+				for _, ch := range []uint8("ACGTUacgtu-NX") {
+					_ = al.AlphabetCharToIndex(ch)
+				}
+			case "translate":
+				al.Translate(0, align.GENETIC_CODE_STANDARD)
+			case "revcomp":
+				al.ReverseComplement()
+			case "write":
+				_ = al.String()
+			}
+		}()
+	}
 }
 
 func countsMap(c opCase) map[string]int {
@@ -449,18 +781,21 @@ func countsMap(c opCase) map[string]int {
 
 // execute builds a fresh container from the case, seeds goalign's random stream and runs the
 // operation once
-func execute(c opCase) (r result) { return executeOn(c, nil, nil) }
+func execute(c opCase) (r result) { return executeOn(c, nil, nil, false) }
 
 // executeOn does the same on the given container (nil: a fresh one)
 // counts: the caller-owned count map of Rarefy (nil: a fresh one): a history reuses the same map
 // from call to call, as `goalign sample rarefy -r N` does
-func executeOn(c opCase, x align.SeqBag, counts map[string]int) (r result) {
+func executeOn(c opCase, x align.SeqBag, counts map[string]int, withTouch bool) (r result) {
 	c = c.expand()
 	if x == nil {
 		x = buildFor(c)
 	}
 	if counts == nil {
 		counts = countsMap(c)
+	}
+	if withTouch {
+		touch(x, c.Touch)
 	}
 	r.Length = -9
 	errs := func(e error) {
@@ -475,6 +810,7 @@ func executeOn(c opCase, x align.SeqBag, counts map[string]int) (r result) {
 			return
 		}
 		r.Rows = gen.Snapshot(al)
+		r.Disagree = accessors(al)
 		r.Length = al.Length()
 		if len(r.Rows) == 0 {
 			return
@@ -503,6 +839,7 @@ func executeOn(c opCase, x align.SeqBag, counts map[string]int) (r result) {
 		case "shuffle-seqs-bag":
 			sb.ShuffleSequences()
 			r.Rows = gen.Snapshot(sb)
+			r.Disagree = accessors(sb)
 		case "sample-bag":
 			s, e := sb.SampleSeqBag(c.N)
 			errs(e)
@@ -510,6 +847,7 @@ func executeOn(c opCase, x align.SeqBag, counts map[string]int) (r result) {
 				r.Nil = true
 			} else {
 				r.Rows = gen.Snapshot(s)
+				r.Disagree = accessors(s)
 			}
 		case "rarefy-bag":
 			s, e := sb.RarefySeqBag(c.N, counts)
@@ -518,6 +856,7 @@ func executeOn(c opCase, x align.SeqBag, counts map[string]int) (r result) {
 				r.Nil = true
 			} else {
 				r.Rows = gen.Snapshot(s)
+				r.Disagree = accessors(s)
 			}
 		}
 		return
@@ -526,6 +865,7 @@ func executeOn(c opCase, x align.SeqBag, counts map[string]int) (r result) {
 	rand.Seed(c.Seed)
 	inplace := func() {
 		r.Rows = gen.Snapshot(al)
+		r.Disagree = accessors(al)
 		r.Length = al.Length()
 	}
 	switch c.Op {
@@ -560,7 +900,7 @@ func executeOn(c opCase, x align.SeqBag, counts map[string]int) (r result) {
 		ret(al.Rarefy(c.N, counts))
 	case "partboot":
 		// the partitioned bootstrap as `build seqboot --partition` builds it
-		parts, e := al.Split(partitionSet(c.Flag, c.N, al.Length()))
+		parts, e := al.Split(partitionSet(c.Ranges, al.Length()))
 		if e != nil {
 			errs(e)
 			r.Nil = true
@@ -655,7 +995,17 @@ func countClass(x, n int) string {
 func checkOp(c opCase) (o pbt.Outcome, err error) {
 	c = c.expand()
 	orig := c.Ali.Rows
-	x := buildFor(c)
+	x, unusable := buildVia(c, true)
+	if c.Plan != nil && c.Big == nil && !strings.HasSuffix(c.Op, "-bag") {
+		if unusable {
+			o.Class("provenance-unusable")
+		} else {
+			o.Class("input through a chain of operations")
+			for _, k := range c.Plan.Kinds() {
+				o.Class("provenance step=%s", k)
+			}
+		}
+	}
 	// the arguments the caller owns (the count map of Rarefy) are created once for the whole history
 	// and must come back unchanged from every call
 	args := countsMap(c)
@@ -666,7 +1016,25 @@ func checkOp(c opCase) (o pbt.Outcome, err error) {
 		}
 		return nil
 	}
-	r1 := executeOn(c, x, args)
+	r1 := executeOn(c, x, args, true)
+	if r1.Disagree != "" {
+		return o, fmt.Errorf("after %s the accessors of the result disagree (rows %v were read as strings before the operation): %s", c.Op, c.Touch, r1.Disagree)
+	}
+	// queries on other alignments before the operation is replayed; a fixed battery of seeded
+	// operations on inputs of the harness must give the same bytes before and after them
+	if len(c.Interlude) > 0 {
+		if lastBattery == "" {
+			lastBattery = batteryProbe()
+		}
+		before := lastBattery
+		interlude(c.Interlude)
+		after := batteryProbe()
+		lastBattery = after
+		if after != before {
+			return o, fmt.Errorf("queries on other alignments (%v) changed what the randomised operations produce after the same rand.Seed on fixed inputs\n before: %s\n after : %s", c.Interlude, before, after)
+		}
+		o.Class("interlude")
+	}
 	if err = argsUnchanged("first call"); err != nil {
 		return
 	}
@@ -683,7 +1051,7 @@ func checkOp(c opCase) (o pbt.Outcome, err error) {
 		// the operation does not modify its receiver: Seed(s); op(x) again on the SAME object, then
 		// after another draw from it in between
 		again := func(what string) error {
-			r := executeOn(c, x, args)
+			r := executeOn(c, x, args, false)
 			if e := argsUnchanged(what); e != nil {
 				return e
 			}
@@ -699,7 +1067,7 @@ func checkOp(c opCase) (o pbt.Outcome, err error) {
 		}
 		other := c
 		other.Seed = c.Seed ^ 0x5DEECE66D
-		executeOn(other, x, args)
+		executeOn(other, x, args, false)
 		if err = argsUnchanged("call with another seed"); err != nil {
 			return
 		}
@@ -863,7 +1231,7 @@ func checkOp(c opCase) (o pbt.Outcome, err error) {
 		if r1.Nil || r1.Err != "" {
 			return o, fmt.Errorf("partitioned bootstrap failed: %s", r1.Err)
 		}
-		part, k := partitionOf(c.Flag, c.N, l)
+		part, k := partitionOf(c.Ranges, l)
 		var amb int
 		amb, err = invPartBoot(orig, got, c.A, part, k)
 		o.Ambiguous += amb
@@ -872,7 +1240,8 @@ func checkOp(c opCase) (o pbt.Outcome, err error) {
 		}
 		drew = aliLen(got) > 0
 		changed = !gen.SameRows(orig, got)
-		o.Class("partboot frac=%s parts=%d modulo=%v", rateClass(c.A, 1), k, c.Flag)
+		o.Class("partboot frac=%s", rateClass(c.A, 1))
+		o.Class("partboot %d partitions, %d ranges", k, len(c.Ranges))
 	case "sample", "sample-bag":
 		out := c.N < 1 || c.N > n
 		if err = wantErr(out, "Sample with nb < 1 or nb > number of sequences"); err != nil {
